@@ -7,9 +7,9 @@
    (tools/props/c30.py): label partial. *)
 From Coq Require Import ZArith NArith String Ascii List Bool.
 Import ListNotations.
-From Cffi Require Import C09.Prim C09.Gen C09.Model C30.Model C30.Proofs C30.Proofs2.
+From Cffi Require Import C09.Prim C09.Gen C09.Model C30.Model C30.Proofs C30.Proofs2 C30.Proofs3.
 From Cffi Require C31.Model C31.Proofs2.
-From Cffi Require C07.Model C07.NoFault C07.Props.
+From Cffi Require C07.Model C07.NoFault.
 Open Scope Z_scope.
 Open Scope string_scope.
 
@@ -34,9 +34,7 @@ Print Assumptions C30_evaluator_closed.
 Corollary C30_no_python_exception : forall env e, wf e ->
   py_eval env e <> Err ZeroDivisionError /\ py_eval env e <> Err ValueError /\
   py_eval env e <> Err IndexError /\ py_eval env e <> Err KeyError /\ py_eval env e <> Err MemoryError.
-Proof.
-  intros env e W. repeat split; intros H; destruct (evaluator_closed env e _ W H) as [E|E]; discriminate E.
-Qed.
+Proof. exact no_python_exception. Qed.
 Print Assumptions C30_no_python_exception.
 
 (* the guard: every shift count outside 0..1024 is refused with CDefError before Python shifts *)
@@ -46,7 +44,6 @@ Theorem C30_shift_guard : forall a b, ~ (0 <= b <= 1024) ->
 Proof. exact shift_guard. Qed.
 Print Assumptions C30_shift_guard.
 
-Definition lit (s : string) : expr := Const (map (fun a => N_of_ascii a) (list_ascii_of_string s)).
 
 (* the former refutation witnesses (fixed findings shift_count, hex_float_constant) *)
 Example C30_former_witnesses :
@@ -108,7 +105,9 @@ Proof. split; vm_compute; reflexivity. Qed.
 
 (* ==== second sentence of C30: "typeof() on a compiled FFI returns a ctype or raises ffi.error ... and never
    crashes or reads outside the string" -- the part decided by parse_c_type.c ====
-   Imported (read-only) from C07: C07.Model is a character/token-level model of parse_c_type.c (next_token,
+   Imported (read-only) from C07 (proofs in C07/NoFault3.v, restated in C07/Props.v as C07_no_fault,
+   C07_result_index_in_range, C07_next_token_stops_at_terminator, C07_lookahead_stops_at_terminator; C30 depends on
+   C07/Model, Lexer, NoFault, NoFault2, NoFault3 only): C07.Model is a character/token-level model of parse_c_type.c (next_token,
    parse_complete, parse_sequel, write_ds, the opcode buffer with every load/store checked); it is tied to the
    UNMODIFIED parse_c_type.c by ./check C07 (an ASan harness with exact-size output buffers) -- C30's own run
    exercises the same file through the real _cffi_backend with ASan/UBSan and PYTHONMALLOC=debug
@@ -124,7 +123,7 @@ Proof. split; vm_compute; reflexivity. Qed.
 (* [tie-C07] *)
 Theorem C30_type_parser_no_buffer_fault : forall (output_size : nat) (cx : C07.Model.ctx) (input : C07.Model.str),
   C07.Model.parse_c_type output_size cx input <> C07.Model.Fault.
-Proof. exact C07.Props.C07_no_fault. Qed.
+Proof. exact type_parser_no_buffer_fault. Qed.
 Print Assumptions C30_type_parser_no_buffer_fault.
 
 (* "returns a ctype or raises ffi.error": the outcome is an error (ffi.error with message and position) or a result
@@ -136,12 +135,7 @@ Theorem C30_type_parser_outcome : forall (output_size : nat) (cx : C07.Model.ctx
   | C07.Model.Err _ _ => True
   | C07.Model.Fault => False
   end.
-Proof.
-  intros osz cx input. destruct (C07.Model.parse_c_type osz cx input) as [[out r]|e p|] eqn:E.
-  - eapply C07.Props.C07_result_index_in_range; eauto.
-  - exact I.
-  - exact (C07.Props.C07_no_fault osz cx input E).
-Qed.
+Proof. exact type_parser_outcome. Qed.
 Print Assumptions C30_type_parser_outcome.
 
 (* "never reads outside the string": the tokenizer and the two look-ahead helpers do not depend on anything stored
@@ -152,10 +146,7 @@ Theorem C30_type_parser_stays_in_string : forall s junk, C07.NoFault.nulfree s =
   (forall k n kd, C07.Model.lex_from s = (k, n, kd) -> (k + n <= List.length s)%nat) /\
   C07.Model.first_nonspace (s ++ 0%N :: junk)%list = C07.Model.first_nonspace s /\
   (forall d acc, C07.Model.ncommas (s ++ 0%N :: junk)%list d acc = C07.Model.ncommas s d acc).
-Proof.
-  intros s junk H. destruct (C07.Props.C07_next_token_stops_at_terminator s junk H) as [A B].
-  destruct (C07.Props.C07_lookahead_stops_at_terminator s junk) as [C D]. auto.
-Qed.
+Proof. exact type_parser_stays_in_string. Qed.
 Print Assumptions C30_type_parser_stays_in_string.
 
 (* ---- non-vacuity ---- *)
